@@ -35,6 +35,7 @@ inline J knobs_op(Rng& r, int min_fd, int max_fd) {
     k.set("fdlimit", r.range(min_fd, max_fd));
     k.set("heap_junk", r.chance(0.85));
     k.set("heap_zero_null", r.chance(0.15));  // malloc(0) may return NULL
+    k.set("no_logger", r.chance(0.12));  // diagnostics switched off
     static const int64_t oasbufs[] = {0, 0, 1, 2, 7, 64, 1000, 65536};
     k.set("oas_buf", oasbufs[r.below(8)]);  // guarded hook: initial CBLOCK staging buffer of write_oas (0 = shipped size)
     return k;
@@ -596,6 +597,7 @@ inline J plan_c01(uint64_t verif_seed, uint64_t index, int tier) {
     cfg.long_strings = ro.chance(0.2);
     cfg.close_vertices = ro.chance(0.1);
     cfg.simple_polys_only = max_points > 4;  // fracturing is only defined for simple polygons
+    cfg.vertex_limit = max_points;
     cfg.dangling = ro.chance(0.15);          // references to cells that were never added to the library
     model::MLib m = gen::library(rm, cfg);
     isolate_region_tags(m, max_points);
@@ -786,6 +788,7 @@ inline J plan_c03(uint64_t verif_seed, uint64_t index, int tier) {
         cfg.named_props_in_gds = true;
         cfg.long_strings = ro.chance(0.2);
         cfg.simple_polys_only = max_points > 4;
+        cfg.vertex_limit = max_points;
         model::MLib m = gen::library(rm, cfg);
         isolate_region_tags(m, max_points);
         models.push(model::to_json(m));
